@@ -95,7 +95,7 @@ PROPS = {
               {"name": "c03", "bad_obs": BAD_OBS}, {"name": "viso"}],
   "rule": "c04: (A) hostile worlds served in-process and predicted response by response by the Lean model: PARAM.SFO wrong in 12 specific ways (truncated, bad magic, counts/offsets/lengths of 0, 2^31, 2^32-1, keys without terminator, bit flips) x TITLE_IDs of 0..40 bytes, region tables wrong in 9 ways (counts 0/1/256/2^32-1, truncated, overlapping, beyond the file, 255 regions) x 6 key-file situations, truncated 3k3y areas, names of 255 bytes / invalid UTF-8 / control characters, read geometries around every boundary incl. offsets >= 2^63 and lengths 2^32-1; "
           "(B) the REAL binary on such a root under hostile byte streams (random, mutated valid sessions, extreme fields, structure-aware opens of every hostile object through every view, floods of 30 concurrent clients): after each the process must run, a fresh connection must be served, a bystander connection must still receive its exact bytes; "
-          "(C) the REAL binary's make-iso / decrypt on every hostile input: a normal exit, never a crash; (D) descriptor exhaustion (ulimit -n 40/100, 3x as many clients) and READ_FILE lengths of 512 MiB..2 GiB x 3..6 clients with the peak RSS of the process bounded. "
+          "(C) the REAL binary's make-iso / decrypt on every hostile input: a normal exit, never a crash; (D) descriptor exhaustion (ulimit -n 40/100, 3x as many clients) and READ_FILE lengths of 512 MiB..2 GiB x 3..6 clients with the peak RSS of the process bounded; a game whose PARAM.SFO is a 1..3 GiB sparse file declaring a 4 GiB TITLE_ID opened as /***PS3***/ image, peak RSS bounded. "
           "c03: raw byte sessions with cuts at every boundary against the model; viso: read geometries of generated images, the model's checked read (readC) must not fault and must equal Image.read",
   "assumptions": ["process survival, accepting, memory and descriptor behaviour are runtime behaviour: observed on the real binary, not proved",
                   "the checked transcriptions in Model/Checked.lean are hand-written from the Go source; they are tied by the differential (a panic of the real code where the model has no fault is reported with the input)",
